@@ -41,14 +41,26 @@ def main() -> int:
     sys.path.insert(0, core.REPO)
 
     # ---- S0: tables + build
-    try:
-        gen_tables.regenerate()
-        tables_ok = True
-    except Exception as e:  # source changed beyond what the translator understands
-        tables_ok = False   # the tie between source text and theorems is lost: counts as a broken obligation
-        ctx.notes.append(f"gen_tables failed: {e!r}")
-        ctx.build_log += f"translator (gen_tables) failed on the current source: {e!r}\n"
+    # every extractor module is rendered separately; a module that fails on the current source, or whose changed
+    # rendering breaks the model build, falls back to its frozen rendering (so the driver keeps building for the
+    # other properties) and marks the properties that own it as 'proof obligation broken'
+    status = gen_tables.regenerate()
+    failed = [n for n, st in status.items() if st.startswith("failed")]
+    changed = [n for n, st in status.items() if st == "changed"]
     ok_drv, log1 = core.lake_build(["fcdrv"])
+    broken_tables = list(failed)
+    if not ok_drv and changed:
+        ctx.build_log += "model/driver does not build with the regenerated tables of: " + ", ".join(changed) + "\n" + log1[-2000:]
+        status2 = gen_tables.regenerate(use_lastgood=changed)
+        ok_drv, log1 = core.lake_build(["fcdrv"])
+        broken_tables += changed
+    for n in failed:
+        ctx.build_log += f"translator {n} failed on the current source: {status[n]}\n"
+    owners = gen_tables.broken_owners(status, broken_tables) if broken_tables else set()
+    tables_ok = not (prop in owners or "*" in owners)
+    ctx.extra["tables"] = {"status": status, "frozen_fallback_for": broken_tables}
+    if broken_tables:
+        ctx.notes.append(f"table extractors broken: {broken_tables} (owners {sorted(owners)})")
     ctx.driver_ok = ok_drv
     ok_prf, log2 = (False, "no Props file")
     if core.props_modules(prop):
